@@ -423,7 +423,7 @@ func genModule(r *base.Rand, nPairs int, startFeature int) *c05module {
 		m.pairs = append(m.pairs, p)
 	}
 	// annotation-level features on some plain pairs
-	annFeatures := []string{"unimported-qualifier", "missing-interface", "not-an-interface", "dir-name-qualifier", "blank-import", "imported-only-by-sibling-file", "predeclared-name-unqualified", "predeclared-name-qualified"}
+	annFeatures := []string{"unimported-qualifier", "missing-interface", "not-an-interface", "dir-name-qualifier", "blank-import", "imported-only-by-sibling-file", "predeclared-name-unqualified", "predeclared-name-qualified", "underscore-qualifier"}
 	k := 0
 	for _, p := range m.pairs {
 		if p.feature == "plain" && p.ifacePkg != "impl" {
@@ -512,6 +512,13 @@ func genModule(r *base.Rand, nPairs int, startFeature int) *c05module {
 			if p.ifacePkg == "alt" && !usesPkg(p, "alt") && !usesPkg(p, "ifc") && !usesPkg(p, "impl") {
 				fi = 3
 				q = "altname"
+			} else {
+				delete(m.special, p.idx)
+			}
+		case "underscore-qualifier":
+			// `_` is the name of the file's blank imports, which bind nothing: IMPL01 (file 0 blank-imports m5/ab/ifc)
+			if fi == 0 {
+				q = "_"
 			} else {
 				delete(m.special, p.idx)
 			}
